@@ -122,3 +122,48 @@ pub(crate) fn sched_point(what: &'static str) {
         }
     });
 }
+
+// H2b : read-only snapshot of a live solver's assembled KKT system and its index maps
+#[derive(Clone, Debug)]
+pub struct KktSnapshot<T> {
+    pub m: usize,
+    pub n: usize,
+    pub p: usize,
+    pub kkt: CscMatrix<T>,
+    pub map_P: Vec<usize>,
+    pub map_A: Vec<usize>,
+    pub map_Hsblocks: Vec<usize>,
+    pub map_diagP: Vec<usize>,
+    pub map_diag_full: Vec<usize>,
+    /// per sparse-expanded cone: ("soc", [u.., v.., D..]) or ("genpow", [p.., q.., r.., D..]) index lists
+    pub sparse_maps: Vec<(String, Vec<Vec<usize>>)>,
+    pub dsigns: Vec<i8>,
+    pub diagonal_regularizer: T,
+}
+
+impl<T: FloatT> KktSnapshot<T> {
+    pub(crate) fn new(
+        m: usize,
+        n: usize,
+        p: usize,
+        kkt: &CscMatrix<T>,
+        map: &crate::solver::core::kktsolvers::direct::LDLDataMapView,
+        dsigns: &[i8],
+        diagonal_regularizer: T,
+    ) -> Self {
+        Self {
+            m,
+            n,
+            p,
+            kkt: kkt.clone(),
+            map_P: map.P.clone(),
+            map_A: map.A.clone(),
+            map_Hsblocks: map.Hsblocks.clone(),
+            map_diagP: map.diagP.clone(),
+            map_diag_full: map.diag_full.clone(),
+            sparse_maps: crate::solver::core::kktsolvers::direct::verif_sparse_maps(map),
+            dsigns: dsigns.to_vec(),
+            diagonal_regularizer,
+        }
+    }
+}
